@@ -98,8 +98,14 @@ MENU = {
 }
 
 
+# components that take the value of a name across the sizes at which its own length field grows (252 / 253 bytes and beyond)
+LONG_MENU = {'L': (8, b'L' * 247), 'M': (8, b'm' * 253), 'N': (0x32, b'\x01' * 120)}
+MENU_ALL = dict(MENU, **LONG_MENU)
+
+
 def name_forms(toks):
     """every accepted input form of the same name: (label, value)"""
+    MENU = MENU_ALL  # noqa
     comps = [ts.tlv(*MENU[t]) for t in toks]
     uri_parts = [ref_to_str(*MENU[t]) for t in toks]
     uri = '/' + '/'.join(uri_parts) + ('/' if toks and toks[-1] == 'E' else '')
@@ -409,8 +415,14 @@ def unit(arg):
                 check_name(toks, viol)
                 acc.evaluations += 1
                 acc.nontrivial += 1
+        for n in range(1, 4):
+            for toks in itertools.product('aELMN', repeat=n):
+                if set(toks) & set(LONG_MENU):
+                    check_name(toks, viol)
+                    acc.evaluations += 1
+                    acc.nontrivial += 1
         component_order(viol, acc)
-        acc.sample({'names': 'all 0..3 over ' + ''.join(MENU) + ' and 0..8 over aE', 'forms': [f[0] for f in name_forms(('a',))[4]]})
+        acc.sample({'names': 'all 0..3 over ' + ''.join(MENU) + ' and 0..8 over aE and 1..3 over aELMN (L, M, N: components of 249, 257 and 122 bytes)', 'forms': [f[0] for f in name_forms(('a',))[4]]})
     elif k == 'pairs':
         check_pairs(arg['lo'], arg['hi'], acc, viol)
         acc.sample({'pairs_first_names': [list(SPACE3[arg['lo']]), list(SPACE3[arg['hi'] - 1])], 'against': len(SPACE3)})
